@@ -127,7 +127,8 @@ Definition mon04 (c : hcase) : N :=
           5 a task it owned that was still staging was dropped from the roster without a KILL
           6 active detectors are not exactly those of the listed environments
           7 calls pending await were not cancelled
-          8 a DESTROY hook started while a non-hook task was still owned by the environment *)
+          8 a DESTROY hook started while a non-hook task was still owned by the environment
+          9 a destroy request / a creation did not return (watchdog) *)
 Definition gone_checks (ops : list op) (e : N) (prev cur : obs) (keep : bool)
            (created : bool) : list N :=
   let c3 := match ob_env cur e with Some _ => 3 | None => 0 end in
@@ -169,9 +170,20 @@ Definition mon06_step (ops : list op) (prev : obs) (o : op) (cur : obs) : list N
     end in
   c6 :: c8 :: specific.
 
+(* a history whose observations stop early: the request at that position did not return within the
+   watchdog time.  For a destroy or a creation that is the property itself (code 9: the teardown /
+   the clean-up tail of a failed creation blocked); for anything else the run is just unusable (90). *)
+Definition hang_code (c : hcase) : N :=
+  match nth_error (h_ops c) (length (h_obs c)) with
+  | Some (ODestroy _ _ _ _ _) | Some (OCreate _ _) | Some (OFinish _ _) => 9
+  | _ => 90
+  end.
+
 Definition mon06 (c : hcase) : N :=
-  if negb (Nat.eqb (length (h_ops c)) (length (h_obs c))) then 90
-  else first_code [1; 5] (mon_walk (mon06_step (h_ops c)) obs0 (h_ops c) (h_obs c)).
+  first_code [1; 5]
+    (mon_walk (mon06_step (h_ops c)) obs0 (h_ops c) (h_obs c) ++
+     (if Nat.ltb (length (h_obs c)) (length (h_ops c)) then [hang_code c]
+      else if Nat.ltb (length (h_ops c)) (length (h_obs c)) then [90] else [])).
 
 (* ================= branch tags (measured input distribution) ================= *)
 (* bit 0 overlapped creation, 1 creation failed after insertion, 2 creation refused (detector / template),
